@@ -128,6 +128,7 @@ class Interp:
         # WHEN OTHERS.  Used only to CLASSIFY a mismatch as the known X-pessimism of the CASE export.
         self.case_merge = case_merge
         self.case_merged = 0
+        self.cur_cycle = 0
         self.val = []
         for n in elab.nets:
             self.val.append(n.init if n.init is not None else "U" * n.width)
@@ -539,6 +540,16 @@ def replay_trace(elab, tr, clock_names=("sysclk",), reset_names=("reset",), rese
     for nm, w in ins + outs:
         if w > 0 and nm not in ports:
             return dict(kind="pin missing in VHDL", pin=nm)
+    cyc = -1
+    try:
+        return _replay_trace(it, tr, ports, clk, rst, ins, outs, reset_active, stats)
+    except VhdlRuntimeError as ex:
+        return dict(kind="VHDL simulation aborts with a run-time error (length/range check) where the reference simulator runs", cycle=it.cur_cycle,
+                    pin=outs[0][0] if outs else "", error=str(ex), expected=None, observed=None, contradiction=True,
+                    stimulus_fully_defined=all(all(ch in "01" for ch in v) for c2 in tr["cycles"][:max(1, it.cur_cycle + 1)] for v in c2[0] if v != "e"))
+
+
+def _replay_trace(it, tr, ports, clk, rst, ins, outs, reset_active, stats):
     # power-on: clock high (rising-edge clocks start high in the reference simulator), reset released
     for c in clk:
         it.val[c.id] = "1"; it.last[c.id] = "1"
@@ -550,6 +561,7 @@ def replay_trace(elab, tr, clock_names=("sysclk",), reset_names=("reset",), rese
             it.val[n.id] = "U" * n.width
     it.initialise()
     for cyc, (iv, ov, evs) in enumerate(tr["cycles"]):
+        it.cur_cycle = cyc
         for ev in evs:
             if ev == "E":
                 it.apply({c.id: "1" for c in clk})
